@@ -32,6 +32,14 @@ func bigOf(v Value) (BigVal, bool) {
 
 // prim implements the vp* primitives of the harness idiom.
 func (ex *Exec) prim(fn *ssa.Function, args []Value) (Value, bool) {
+	if len(args) > 0 {
+		if n, ok := args[0].(string); ok && strings.HasPrefix(fn.Name(), "vp") {
+			switch fn.Name() {
+			case "vpBool", "vpInt", "vpInt64", "vpUint", "vpUint64", "vpByte", "vpIntRange", "vpChoose", "vpBig", "vpBigBits", "vpBigRange", "vpPrime", "vpModulus", "vpAtom", "vpOrder":
+				ex.noteVar(n)
+			}
+		}
+	}
 	switch fn.Name() {
 	case "vpNative":
 		return smt.False, true
@@ -246,6 +254,9 @@ func (ex *Exec) assert(label string, cond *smt.Term) {
 					model, who = m2, w2
 				case smt.Unsat:
 					res = smt.Unsat // the path itself is infeasible
+				default:
+					res = smt.Unknown
+					note = "sliced query sat but the full path condition could not be decided"
 				}
 			}
 		}
